@@ -219,6 +219,86 @@ def rstep (rs : RS) : List String → RS × String
     | none => (rs, "bad-op")
   | _ => (rs, "bad-op")
 
+/-! ### event-loop stream (`l …`): several recorders, each a `Loop`, kept as data -/
+
+structure LD where
+  m : Tbl DL := []
+  users : List String := []
+  file : Tbl (List Event) := []
+  fileUsers : List String := []
+  armed : Bool := false
+  cached : Bool := true
+  since : Option Int := none
+
+def LD.toLoop (d : LD) : Loop :=
+  { m := ofTbl d.m, file := ofTbl d.file, armed := d.armed, cached := d.cached, since := d.since }
+
+/-- apply one model step and store the result as data again (`users'`, `fileUsers'`: key sets afterwards) -/
+def LD.apply (d : LD) (op : LoopOp) (users' fileUsers' : List String) : LD :=
+  let s := loopStep d.toLoop op
+  { m := toTbl users' s.m, users := users', file := toTbl fileUsers' s.file, fileUsers := fileUsers',
+    armed := s.armed, cached := s.cached, since := s.since }
+
+def LD.tick (d : LD) : LD := d.apply .tick d.users (if d.armed then d.users else d.fileUsers)
+
+abbrev LS := List (Nat × LD)
+
+def lsGet (ls : LS) (i : Nat) : Option LD := ls.lookup i
+def lsSet (ls : LS) (i : Nat) (d : LD) : LS := (i, d) :: ls.filter (·.1 != i)
+
+def lrec (ls : LS) (sid : String) (u : String) (e : Event) : LS × String :=
+  match sid.toNat? with
+  | some i =>
+    match lsGet ls i with
+    | some d => (lsSet ls i (d.apply (.record u e) (insertStr u d.users) d.fileUsers), "ok")
+    | none => (ls, "bad-op")
+  | none => (ls, "bad-op")
+
+def lstep (ls : LS) : List String → LS × String
+  | ["base", t] => (ls, s!"base {t}")
+  | ["new", sid] =>
+    match sid.toNat? with
+    | some i => (lsSet ls i {}, "new")
+    | none => (ls, "bad-op")
+  | ["rec", sid, u, "auth", a, v, ct] =>
+    match a.toNat?, v.toNat?, ct.toNat? with
+    | some a, some v, some ct => lrec ls sid u { blankEvent ct with authType := a, vipAuthType := v }
+    | _, _, _ => (ls, "bad-op")
+  | ["rec", sid, u, "sp", url, ct] =>
+    match unhex url, ct.toNat? with
+    | some url, some ct => lrec ls sid u { blankEvent ct with serviceProviderUrl := url.toList }
+    | _, _ => (ls, "bad-op")
+  | ["rec", sid, u, "web", ct] =>
+    match ct.toNat? with
+    | some ct => lrec ls sid u { blankEvent ct with webLogin := true }
+    | none => (ls, "bad-op")
+  | ["rec", sid, u, "cert", k, life, ct] =>
+    match life.toNat?, ct.toNat? with
+    | some life, some ct =>
+      if k == "ssh" || k == "x509" then
+        lrec ls sid u { blankEvent ct with lifetimeSeconds := life, ssh := k == "ssh", x509 := k == "x509" }
+      else (ls, "bad-op")
+    | _, _ => (ls, "bad-op")
+  | ["query", sid] =>
+    match sid.toNat? with
+    | some i =>
+      match lsGet ls i with
+      | some d =>
+        let d' := d.apply .query d.users d.fileUsers
+        (lsSet ls i d', "q" ++ String.join (d'.users.map fun u =>
+          s!" {u}={joinWith "|" (((ofTbl d'.m u).getD DL.empty).snapshot.map evStr)}"))
+      | none => (ls, "bad-op")
+    | none => (ls, "bad-op")
+  | ["wait"] => (ls.map fun p => (p.1, p.2.tick), "waited")
+  | ["restart", sid, now] =>
+    match sid.toNat?, now.toInt? with
+    | some i, some now =>
+      match lsGet ls i with
+      | some d => (lsSet ls i (d.apply (.restart now) d.fileUsers d.fileUsers), "restarted")
+      | none => (ls, "bad-op")
+    | _, _ => (ls, "bad-op")
+  | _ => (ls, "bad-op")
+
 /-! ### issuing-path stream -/
 
 structure IS where
@@ -282,11 +362,13 @@ structure MS where
   n : NS := {}
   r : RS := {}
   i : IS := {}
+  l : LS := []
 
 def mstep (s : MS) : List String → MS × String
   | "n" :: rest => let (n', o) := nstep s.n rest; ({ s with n := n' }, o)
   | "r" :: rest => let (r', o) := rstep s.r rest; ({ s with r := r' }, o)
   | "i" :: rest => let (i', o) := istep s.i rest; ({ s with i := i' }, o)
+  | "l" :: rest => let (l', o) := lstep s.l rest; ({ s with l := l' }, o)
   | _ => (s, "bad-op")
 
 /-! ### judge: the predicates of the theorems, on what the implementation returned -/
@@ -319,7 +401,18 @@ def judgeExpire (now : Int) (before after : DL) : String :=
   else if !decide after.wf then "viol pointers-inconsistent"
   else "ok"
 
+/-- c20_loop_persist: what a restart brings back is the history from before it, minus expired entries -/
+def judgePersist (now : Int) (before after : List Event) : String :=
+  if after == before.filter (keep now) then "ok"
+  else if after.length < (before.filter (keep now)).length then
+    s!"viol lost={(before.filter (keep now)).length - after.length}"
+  else "viol content-or-order"
+
 def judge : List String → String
+  | ["persist", now, b, a] =>
+    match now.toInt?, parseEvs b, parseEvs a with
+    | some now, some b, some a => judgePersist now b a
+    | _, _, _ => "bad-op"
   | ["deliv", n, qlens, pubs, handed] =>
     match n.toNat?, (splitList "," qlens).mapM String.toNat? with
     | some n, some ql => judgeDeliv n ql (splitList "|" pubs) (splitList "|" handed)
